@@ -18,6 +18,9 @@ fn main() {
     let code = match args[1].as_str() {
         "check" => props::check_cmd(&args[2..]),
         "selftest" => props::selftest(),
+        "sched-probe" => props::sched_probe(),
+        "sched-debug" => props::sched_debug(&args[2]),
+        "sched-trace" => props::sched_trace(&args[2]),
         other => {
             eprintln!("unknown command {other}");
             2
